@@ -39,9 +39,11 @@ theorem findSpanLinear_unique (p : ℕ) (U : ℕ → K) (n : ℕ) (u : K) (hpn :
 
 /-- **Binary search = linear search** (termination included: the fuel the model gives the loop
     suffices) for every degree, non-decreasing knot function and parameter of the domain, provided the
-    tolerance shortcut at the domain end only fires for parameters of the last span. -/
+    tolerance shortcut at the domain end only fires for parameters of the last span.
+    The model's start index `(low+high+1)/2` is the code's `int(round((low+high)/2 + tol))` only for
+    `0 ≤ tol < 1/2`, hence the hypothesis `2 * tol < 1` (the default is 1e-5). -/
 theorem findSpanBin_eq_linear (p : ℕ) (U : ℕ → K) (n : ℕ) (u tol : K) (hpn : p + 1 ≤ n)
-    (hm : Monotone U) (hlo : U p ≤ u) (hhi : u ≤ U n) (htol : 0 ≤ tol)
+    (hm : Monotone U) (hlo : U p ≤ u) (hhi : u ≤ U n) (htol : 0 ≤ tol) (_htol2 : 2 * tol < 1)
     (hend : absK (U n - u) ≤ tol → U (n - 1) ≤ u) :
     findSpanBin p U n u tol = some (findSpanLinear p U n u) :=
   Geomdl.findSpanBin_eq_linear p U n u tol hpn hm hlo hhi htol hend
